@@ -377,6 +377,16 @@ pub struct SweepResult {
     pub fatals: Vec<Fatal>,
     pub respawns: u64,
     pub chunks: u64,
+    /// the sweep stopped feeding new ranges (too many fatal cases or wall-clock cap):
+    /// what was found is reported, but the family was NOT completed
+    pub capped: Option<String>,
+}
+
+/// Engine-internal caps (a run that hits one is reported as not exhaustive).
+pub const MAX_FATALS: usize = 48;
+pub fn wall_cap() -> Duration {
+    let secs = std::env::var("VERIF_SWEEP_WALL_CAP_S").ok().and_then(|s| s.parse().ok()).unwrap_or(3600u64);
+    Duration::from_secs(secs)
 }
 
 pub fn sweep(
@@ -398,6 +408,9 @@ pub fn sweep(
     }
     let nchunks = q.len() as u64;
     let queue = Mutex::new(q);
+    let started = Instant::now();
+    let cap = wall_cap();
+    let capped: Mutex<Option<String>> = Mutex::new(None);
     let total = Mutex::new(Tally::new());
     let fatals: Mutex<Vec<Fatal>> = Mutex::new(Vec::new());
     let bad: Mutex<Option<String>> = Mutex::new(None);
@@ -408,6 +421,10 @@ pub fn sweep(
         watchdog,
         || {
             let mut g = queue.lock().unwrap();
+            if started.elapsed() > cap && !g.is_empty() {
+                *capped.lock().unwrap() = Some(format!("wall-clock cap of {} s reached with {} ranges unexplored", cap.as_secs(), g.len()));
+                g.clear();
+            }
             match g.pop_front() {
                 Some(r) => vec![r],
                 None => vec![],
@@ -426,7 +443,15 @@ pub fn sweep(
                         g.push_front(Range { fam: r.fam, lo: i, hi: i + 1 });
                     }
                 } else {
-                    fatals.lock().unwrap().push(Fatal { family: families[r.fam].tag.clone(), index: r.lo, status: other });
+                    let mut f = fatals.lock().unwrap();
+                    f.push(Fatal { family: families[r.fam].tag.clone(), index: r.lo, status: other });
+                    if f.len() >= MAX_FATALS {
+                        let mut g = queue.lock().unwrap();
+                        if !g.is_empty() {
+                            *capped.lock().unwrap() = Some(format!("{} cases killed their worker; sweep stopped with {} ranges unexplored", f.len(), g.len()));
+                            g.clear();
+                        }
+                    }
                 }
             }
         },
@@ -436,7 +461,7 @@ pub fn sweep(
     }
     let mut f = fatals.into_inner().unwrap();
     f.sort_by(|a, b| (a.family.as_str(), a.index).cmp(&(b.family.as_str(), b.index)));
-    Ok(SweepResult { tally: total.into_inner().unwrap(), fatals: f, respawns: stats.respawns, chunks: nchunks })
+    Ok(SweepResult { tally: total.into_inner().unwrap(), fatals: f, respawns: stats.respawns, chunks: nchunks, capped: capped.into_inner().unwrap() })
 }
 
 /// Worker side of `sweep`. `run(family_tag, index, tally)` executes one case; it should catch
